@@ -410,7 +410,7 @@ PROPS["C16"] = dict(
 )
 
 PROPS["C15"] = dict(
-    modules=["Morlock.Props.C15", "Morlock.Props.C15Limits", "Morlock.Props.Audit.C15Halt", "Morlock.Props.C03", "Morlock.Props.C18Cfg"],
+    modules=["Morlock.Props.C15", "Morlock.Props.C15Limits", "Morlock.Props.C15LimitsNeg", "Morlock.Props.Audit.C15Halt", "Morlock.Props.C03", "Morlock.Props.C18Cfg"],
     streams=["c15", "engcfg"],
     level_text="Lean theorem: for every clock 0 <= remaining < 2^62 ns and EVERY int64 moves-to-go (the uci parser accepts any integer), TimeControl.Limits gives 0 <= soft <= hard <= "
                "remaining and none of its divisions can panic (C15Limits.hard_le_remaining, divisor_ok; int64 wrap-around and truncating division explicit; a negative clock is outside: "
@@ -430,7 +430,7 @@ PROPS["C15"] = dict(
          "iterseq: two analyses on one engine; iterhalt: 20 positions x gate 1-40; non-trivial = distinct parameters / script",
     partial=["IterConc is tied to the code only indirectly: on every iter op the small-step model run under the canonical schedule must stop where the SEQUENTIAL model does, and the stream ties the sequential model "
              "to the code (last depth, scores, PVs); gated-halt scenarios exercise its conclusions on the real code; real timers through the gate only",
-             "no liveness theorem; parent-context cancellation and search errors are not modelled (with them Halt can return the empty PV); the clock must not be negative"],
+             "no liveness theorem; parent-context cancellation and search errors are not modelled (with them Halt can return the empty PV); for a clock that has run out (negative remainder) the limits are the negated limits of its absolute value: remaining <= hard <= soft <= 0 (C15LimitsNeg.limits_neg / negative_clock, every int64 moves-to-go)"],
     modelled=["engine/engine.go options / table / noise bookkeeping -> Model/EngineCfg.lean (theorems Props/C18Cfg: launch_depth, hash_off_no_table, table_changed_only_by_reset; stream engcfg)", "search/searchctl/timectrl.go: TimeControl.Limits -> Model.TimeCtl; iterative.go process loop -> Driver.Misc.iterOp over Model.Search (sequential) and Model.IterConc (small-step: searcher, watcher, Halt callers, consumer)"],
 )
 
